@@ -112,6 +112,15 @@ pub fn gen(seed: u64, idx: u64, tier: Tier) -> Scenario {
     let table = command_table();
     sc.steps.push(Step::Connect { c: 0, inst: 0, buf: 0 });
     for a in fixtures() { sc.steps.push(Step::Cmd { c: 0, a, split: vec![] }); }
+    if idx == 5 {
+        // (f) one run of every batch: a script that never ends. Nothing else runs in it, and a quantum that has not come
+        // back after 4 s of real time is a hang (elsewhere 30 s) - a recorded finding, see known_findings.txt
+        sc.knobs.insert("watchdog_s".into(), 4);
+        sc.steps.push(Step::Connect { c: 1, inst: 0, buf: 0 });
+        sc.steps.push(Step::Cmd { c: 1, a: vec![b("EVAL"), b(ENDLESS), b("0")], split: vec![] });
+        sc.steps.push(Step::Ctl { name: "probe".into(), n: 1, a: vec![] });
+        return sc;
+    }
     let n = match tier { Tier::Quick => 60, Tier::Thorough => 150 };
     // systematic walk: the run index selects a window of the (command x position x boundary value) space
     let space = table.len() as u64 * 4 * BOUNDARY.len() as u64;
@@ -243,6 +252,7 @@ pub fn exec(sc: &Scenario) -> Outcome {
     if let Err(e) = h.boot(&sc.cfg, "a") { return Outcome { verdict: "harness".into(), note: e, ..Default::default() }; }
     alloc_seam::LIMIT.store(8 << 30, std::sync::atomic::Ordering::SeqCst);
     alloc_seam::reset_max();
+    if sc.knob("watchdog_s", 0) > 0 { crate::world::g().watchdog_ns = sc.knob("watchdog_s", 0) as u64 * 1_000_000_000; }
     let mut last = String::from("-");
     let mut sent_since = 0usize;
     let mut sentinels = (false, false);
@@ -284,15 +294,17 @@ pub fn exec(sc: &Scenario) -> Outcome {
     h.finish(sc.seed)
 }
 
+const ENDLESS: &str = "while true do end";
 fn verb_of(args: &[Vec<u8>]) -> String {
     let v: String = args.first().map(|a| String::from_utf8_lossy(a).to_uppercase()).unwrap_or_default();
+    if v == "EVAL" && args.len() > 1 && args[1] == ENDLESS.as_bytes() { return "EVAL:endless-loop".into(); }
     if v == "EVAL" && args.len() > 3 && args[1] == b"return redis.call(unpack(ARGV))" { format!("EVAL:{}", String::from_utf8_lossy(&args[3]).to_uppercase()) } else { v }
 }
 
 pub static DEF: CheckDef = CheckDef {
     id: "C06", level: "exploration", gen, exec,
     nontrivial: |o| o.counters.get("cmds").copied().unwrap_or(0) + o.counters.get("hostile_frames").copied().unwrap_or(0) >= 20 && o.counters.get("probes").copied().unwrap_or(0) >= 1,
-    rule: "one run = 60-150 hostile inputs against a server holding keys of all six types and sentinel data: (a0) in every third run, 80 multi-argument command templates (stream, consumer-group, sorted-set range, scan, index, expiry, script commands) whose typed holes - key, group, consumer, stream id, number, string - are filled from boundary pools; (a) a systematic walk, indexed by the run number, over (every command name extracted from the dispatch match arms of /repo's server.rs and executor.rs at check time + a static list) x argument position x 50 boundary values (0, +-1, i64/u64/u32 bounds and beyond, 1e400, nan, inf, huge digit strings, option keywords, stream-id forms), sent directly, inside MULTI/EXEC and through redis.call; (b) random commands with several boundary arguments; (c) byte-level hostile frames (absurd declared lengths, 200k-deep nesting, truncated frames then close, random bytes); (d) blocked/subscribed/mid-transaction connections that vanish, and clients blocked on a key under which another client then stores a string / set / hash / sorted set / stream or renames one; (e) in a twelfth of the runs a glob pattern with 14-24 stars against a 40-80 byte text that almost matches, through PSUBSCRIBE+PUBLISH, KEYS, SCAN MATCH and HSCAN MATCH (exponential backtracking would stall the single command thread). Oracle after every 10 inputs and at the end: no thread of the server panicked, no exit(), no deadlock, no hang (watchdog), largest single allocation <= 2 x the server's own 512 MiB value cap + 64 MiB + 8 x bytes sent (allocator seam; a request for more than 8 GiB is refused, which aborts the process), and a NEW connection gets PONG and reads the sentinel data intact; non-trivial = at least 20 hostile inputs and one probe; distinct = distinct event-log hash",
+    rule: "one run = 60-150 hostile inputs against a server holding keys of all six types and sentinel data: (a0) in every third run, 80 multi-argument command templates (stream, consumer-group, sorted-set range, scan, index, expiry, script commands) whose typed holes - key, group, consumer, stream id, number, string - are filled from boundary pools; (a) a systematic walk, indexed by the run number, over (every command name extracted from the dispatch match arms of /repo's server.rs and executor.rs at check time + a static list) x argument position x 50 boundary values (0, +-1, i64/u64/u32 bounds and beyond, 1e400, nan, inf, huge digit strings, option keywords, stream-id forms), sent directly, inside MULTI/EXEC and through redis.call; (b) random commands with several boundary arguments; (c) byte-level hostile frames (absurd declared lengths, 200k-deep nesting, truncated frames then close, random bytes); (d) blocked/subscribed/mid-transaction connections that vanish, and clients blocked on a key under which another client then stores a string / set / hash / sorted set / stream or renames one; (e) in a twelfth of the runs a glob pattern with 14-24 stars against a 40-80 byte text that almost matches, through PSUBSCRIBE+PUBLISH, KEYS, SCAN MATCH and HSCAN MATCH (exponential backtracking would stall the single command thread); (f) in one run of every batch a script that never ends (`while true do end`). Oracle after every 10 inputs and at the end: no thread of the server panicked, no exit(), no deadlock, no hang (watchdog), largest single allocation <= 2 x the server's own 512 MiB value cap + 64 MiB + 8 x bytes sent (allocator seam; a request for more than 8 GiB is refused, which aborts the process), and a NEW connection gets PONG and reads the sentinel data intact; non-trivial = at least 20 hostile inputs and one probe; distinct = distinct event-log hash",
     quick_budget_s: 45.0, thorough_budget_s: 1200.0, quick_max_runs: 1_000_000, thorough_max_runs: 100_000_000, exhaustive: false, exhaustive_after: |_| 0,
     real: REAL_WHOLE_SERVER, stub: STUB_WHOLE_SERVER, assumptions: ASSUME_COMMON,
 };
